@@ -288,6 +288,9 @@ def _r_japanese_year(t, impl, expected):
     """japanese / japanext: Calendar::year() reports years <= 0 for dates before 1 CE, but the calendrical library
     refuses a non-positive year given without an era (it reads it in the `ce` era), so such a date cannot be rebuilt
     from its own year; rebuilding from era and era year works."""
+    if t[0] in ("cal_withid", "cal_toymc") and t[1] in ("japanese", "japanext"):
+        # with() and to_plain_year_month() carry the receiver's year as its calendar year
+        return _re.match(r"^err range@y<=0(@historic)?$", impl) is not None and expected.startswith("ok ")
     if t[0] != "cal_rt" or t[1] not in ("japanese", "japanext"):
         return False
     a, e = _rt_parts(impl), _rt_parts(expected)
@@ -326,6 +329,8 @@ def _r_islamic_day0(t, impl, expected):
         if not a or not e:
             return False
         return a[0] == "range@day0" and a[1] == "range@day0" and a[2] == "range@day0" and a[3] == e[3]
+    if t[0] in ("cal_withid", "cal_toymc"):
+        return impl.endswith("@day0") and expected.startswith("ok ")
     if t[0] == "cal_fromc":
         # the other side of it: the last day of the month before is accepted and reads back as day 0 of the next
         return expected == "lib" and _re.match(r"^INCONSISTENT month \d+!=\d+,day 0!=\d+$", impl) is not None
